@@ -161,7 +161,99 @@ CLAIMED['C09'] = dict(
          'conditions no way to change the context.',
     technique='Coq proof (one-step simulation + induction) + differential correspondence and metamorphic lock-step runs')
 
-NOT_YET = {}
+CLAIMED['C02'] = dict(
+    category='proof',
+    text='Coq theorems over the interpreter model: for every statechart passing the decidable well-formedness check wf_chart_b (proved to '
+         'imply all the section-2 hypotheses), every evaluator and listeners and every sequence of queue/execute_once operations from the '
+         'initial state, after each normally returning call the configuration is empty or legal (root, parent-closed, exactly one active '
+         'child per compound, all children of an orthogonal state, no history state) and stable (C02_run_checked; one-step form '
+         'C02_step_checked from ANY state satisfying the invariant); final is absorbing; stabilisation terminates (fuel irrelevant beyond '
+         '2|S|+2). The micro steps computed in advance for simultaneous transitions are shown to stay accurate because the transitions '
+         'that pass the conflict check sit in distinct regions. Tied to default.py by one-operation correspondence cases (configuration, '
+         'initialised flag) and by the legality checker legal_b (proved to mean legal) evaluated on every configuration the real '
+         'interpreter returns; charts include transitions into states nested in orthogonal regions, history targets, nested orthogonal '
+         'states and several simultaneous transitions.',
+    design_ref='DESIGN.md section 6 (C02)',
+    note='Trusted: Coq kernel+VM; hand-written model validated differentially on generated cases only; hypotheses = DESIGN.md section 2 '
+         'as the decidable wf_chart_b (WF7b is not needed).',
+    technique='Coq proof (invariant induction over runs, region-locality of micro steps) + step-local differential correspondence via vm_compute')
+CLAIMED['C07'] = dict(
+    category='proof',
+    text='Coq theorems over the interpreter model: (hash seed) execute_once and every operation sequence give the same results, trace and '
+         'state whatever order the configuration set and the remembered lists are iterated in - no hypothesis on the chart '
+         '(C07_hashseed_ops); (declaration order) for charts related by any permutation of the state dictionaries, children lists and '
+         'transition list, every input history yields macro steps equal up to the renumbering of transitions - same consumed events, '
+         'transition records, exit/entry order, sent events, contexts - or errors of the same kind at the same step (C07_decl_order_ops, '
+         'C07_decl_order_perm); the conflict check returns the same error in both orders (C07_error_kind). Tied to the code by a '
+         'metamorphic check of the real implementation: each generated chart is rebuilt in shuffled add_state/add_transition orders and '
+         'through YAML, run in lock-step on the same script, and the same jobs are run in fresh processes under three PYTHONHASHSEED '
+         'values; the reference runs are also evaluated against the model.',
+    design_ref='DESIGN.md section 6 (C07)',
+    note='Trusted: Coq kernel+VM; hand-written model validated differentially; hypotheses: unique names / unique root / registered children '
+         '(decl_wf), descendants_for without duplicates (desc_ok, decidable), evaluator blind to transition indices. The lock-step runs '
+         'are tests (they find failing inputs), the theorems are about the model.',
+    technique='Coq proof (permutation invariance of every model function) + metamorphic differential runs (declaration orders, hash seeds)')
+CLAIMED['C11'] = dict(
+    category='proof',
+    text='Coq theorem over the model of export_to_dict / schema / import_from_dict / validate: for every valid statechart the import of its '
+         'export succeeds and is a lossless image (name, description, preamble, every state with kind, parent, code, initial/memory, '
+         'contracts; every transition with all fields, order per source kept; code modulo surrounding whitespace) - C11_dict_roundtrip, '
+         'C11_dict_roundtrip_eqv. The YAML text layer (ruamel) is not modelled: the correspondence run checks load(dump(d)) = d on every '
+         'exported dictionary, compares import_from_yaml(export_to_yaml(sc)) with the model and with the lossless-image checker, applies the '
+         'real == to every state and transition, and runs original and re-import in lock-step; charts carry unicode, YAML-significant and '
+         'multi-line names and code; failing exports/imports are interleaved in the same process.',
+    design_ref='DESIGN.md section 6 (C11)',
+    note='Trusted: Coq kernel+VM; hand-written model validated differentially; ruamel.yaml and schema are third-party (exercised, not '
+         'modelled); the behavioural clause is a corollary of C07 (declaration order) checked by lock-step runs; one known finding '
+         '(U+0085 folded by ruamel) is listed in known_findings.json.',
+    technique='Coq proof (export/import inverse by tree induction) + differential correspondence and lock-step runs')
+CLAIMED['C12'] = dict(
+    category='proof',
+    text='Coq theorems over the model of the import pipeline on ARBITRARY YAML data trees: every returned statechart is structurally sound '
+         '(C12_sound, import_sound_one_tree); for each listed fault class a document containing the fault at any position is rejected '
+         '(22 C12_reject_* theorems: unknown keys at the four levels, unknown type, bad priority, missing names/root, both states and '
+         'parallel states, duplicate names, transitions on final/history states, unknown targets, history root / history under a '
+         'non-compound parent, initial not a child, memory not a sibling); the pipeline never depends on fuel and never ends in another '
+         'error kind (C12_error_type). Tied to yaml.py/datadict.py by fault injection: documents exported from generated charts with one '
+         'or two faults injected at random positions (faulty transitions carrying arbitrary legal priorities/guards/actions), benign '
+         'variations and unmodified documents; outcome class compared with the model, soundness checker evaluated on everything the '
+         'real importer returns.',
+    design_ref='DESIGN.md section 6 (C12)',
+    note='Trusted: Coq kernel+VM; hand-written model validated differentially; import-level rejection theorems locate the fault in the '
+         'schema-validated tree; YAML syntax errors and duplicate mapping keys are raised by ruamel and are outside the listed faults.',
+    technique='Coq proof (import invariants, case analysis of the schema model) + fault-injection differential correspondence')
+CLAIMED['C16'] = dict(
+    category='proof',
+    text='Coq theorems over the model of the seven editing methods: every successful call on a sound statechart leaves it sound '
+         '(C16_preserve), for any sequence (C16_seq); a call that raises StatechartError/ValueError leaves the statechart exactly as it was '
+         '(C16_atomic), failed calls are no-ops (C16_seq_skip); the exact effect of each operation (C16_effect_*: remove_state removes '
+         'exactly the subtree, every transition touching it, resets exactly the dangling initial/memory; move_state; rename_state = image '
+         'under the renaming; ...). Tied to statechart.py by one-call correspondence cases (valid and invalid arguments): the complete '
+         'statechart including dictionary orders is compared after each call, soundness and atomicity checkers run on the implementation\'s '
+         'result, and the traversal queries depth_for/ancestors_for/descendants_for answered after the call (having also been asked before '
+         'it) are compared with those of the resulting statechart.',
+    design_ref='DESIGN.md section 6 (C16)',
+    note='Trusted: Coq kernel+VM; hand-written model validated differentially; transitions are referred to by index; no state named ""; '
+         'add_state side condition (no initial, memory already valid) proved necessary.',
+    technique='Coq proof (dictionary/tree invariants, exact post-state characterisation) + one-call differential correspondence')
+CLAIMED['C17'] = dict(
+    category='proof',
+    text='Coq theorems: (structure, EditProofs) rename_state yields the image of the statechart under the renaming, every transition keeps '
+         'its shape - internal transitions stay internal (C17_structure, C17_internal_stay_internal); (behaviour) for every injective '
+         'renaming that preserves the lexicographic order of the chart\'s names, every function of the interpreter model commutes with it, '
+         'so every input history of the renamed chart produces the image of the original run (C17_equivariance_run; locality and '
+         'necessity of the order hypothesis also proved). Tied to the code by lock-step runs of the real implementation: original vs '
+         'chart renamed through rename_state (random order-preserving renamings of random subsets, charts with internal transitions and '
+         'entry/exit code), structural comparison with the image, and guest vs host after copy_from_statechart.',
+    design_ref='DESIGN.md section 6 (C17)',
+    note='Trusted: Coq kernel+VM; hand-written model validated differentially; the evaluator must not depend on state names (code is not '
+         'rewritten by rename_state); behaviour of a copied sub-chart inside its host is checked by lock-step runs only (no theorem), as '
+         'planned in DESIGN.md.',
+    technique='Coq proof (equivariance of every model function) + metamorphic differential runs (rename_state, copy_from_statechart)')
+
+NOT_YET = {'C18': 'check being built this round (snapshot model + pickle/deepcopy lock-step); not claimed yet',
+           'C19': 'check being built this round (BDD model + behave end-to-end correspondence); not claimed yet',
+           'C20': 'check being built this round (runner LTS + gated-thread replay); not claimed yet'}
 
 ALL = ['C%02d' % i for i in range(1, 21)]
 
